@@ -403,9 +403,27 @@ func checkAdsConstructor(r *Reporter, p *Prog) {
 		if fieldSel(info, se.X, "root") {
 			return true
 		}
-		// the root value handed to a helper
+		// the root value handed to a helper: follow the helper's parameter to the caller's argument
 		cpt, okp := f.PointOf(c)
-		return okp && strings.HasSuffix(f.KeyAt(se.X, cpt), ".root")
+		if !okp {
+			return false
+		}
+		x, xpt := se.X, cpt
+		for i := 0; i < 4; i++ {
+			if fieldSel(info, x, "root") {
+				return true
+			}
+			po := objOfIdent(info, x)
+			if po == nil {
+				break
+			}
+			arg, apt, ok := f.paramArg(po, xpt)
+			if !ok {
+				break
+			}
+			x, xpt = arg, apt
+		}
+		return strings.HasSuffix(f.KeyAt(se.X, cpt), ".root")
 	})
 	key := "ads.newAuthenticatedMap"
 	if len(imports) != 1 || len(news) != 1 || len(rootGets) != 1 {
